@@ -137,10 +137,13 @@ def make_cfg(rng, events=("Probe",), long_steps=False):
     return cfg
 
 
-def run_cfg(cfg, seed):
+_REC = object()
+
+
+def run_cfg(cfg, seed, logger=_REC):
     global EV
     EV = []
-    r = SequentialRunner(settings=copy.deepcopy(cfg), prng=random.Random(seed), logger=Rec())
+    r = SequentialRunner(settings=copy.deepcopy(cfg), prng=random.Random(seed), logger=Rec() if logger is _REC else logger)
     for c in (RandAgent, RandHFT, Probe):
         r.class_register(c)
     with contextlib.redirect_stdout(io.StringIO()):
